@@ -427,7 +427,9 @@ pub fn json_schema_to_cedar_schema_str<N: Display>(
     json_schema: &json_schema::Fragment<N>,
 ) -> Result<String, ToCedarSchemaSyntaxError> {
     let mut name_collisions: Vec<InternalName> = Vec::new();
-    for (name, ns) in json_schema.0.iter().filter(|(name, _)| !name.is_none()) {
+    // (the empty namespace too: there as well a bare name printed in Cedar syntax
+    // cannot say whether it means the entity type or the common type)
+    for (name, ns) in json_schema.0.iter() {
         let entity_types: HashSet<InternalName> = ns
             .entity_types
             .keys()
